@@ -1,7 +1,7 @@
 (* The admin RPC is a thin layer: every request either reads the two balance views / the keyset list and changes nothing,
    or is exactly a RotateKeyset - so every theorem about histories of mint operations covers histories with admin requests. *)
 From Coq Require Import ZArith List Bool Lia.
-From Verif Require Import Model Sem InvDb InvSwap Corollaries Queries Footprint Admin.
+From Verif Require Import Model Sem InvDb InvSwap Corollaries Queries Footprint Global GlobalErr Admin.
 Import ListNotations.
 Open Scope Z_scope.
 
@@ -77,4 +77,70 @@ Theorem admin_redeemed_view w :
 Proof.
   unfold admin_step. destruct w as [d l m a n]. cbn [admin_prog reset_calls w_mem w_active]. sx.
   eexists. split; [reflexivity|apply redeemed_view_total].
+Qed.
+
+(* ---------- histories that contain admin requests ---------- *)
+
+Inductive aitem := AOp (o : op) | AReq (r : areq).
+
+Definition astep (cfg : config) (w : world) (it : aitem) : world :=
+  match it with
+  | AOp o => fst (step cfg no_fault w o)
+  | AReq r => fst (admin_step w r)
+  end.
+
+Definition arun (cfg : config) (w : world) (h : list aitem) : world := fold_left (astep cfg) h w.
+
+(* the mint operations an admin history amounts to: a well-formed rotation is ORotate, every other request is a balance query *)
+Definition as_op (it : aitem) : op :=
+  match it with
+  | AOp o => o
+  | AReq r => match is_rotation r with Some fee => ORotate fee | None => OBalance end
+  end.
+
+Definition same_state (a b : world) : Prop :=
+  w_db a = w_db b /\ w_ln a = w_ln b /\ w_mem a = w_mem b /\ w_active a = w_active b.
+
+Lemma balance_readonly cfg w :
+  same_state (fst (step cfg no_fault w OBalance)) w.
+Proof.
+  unfold step. cbn [is_env prepare op_prog]. unfold lift. rewrite run_bind.
+  pose proof (frame_db_reads fp_balance total_balance only_balance ltac:(intros c Hc; destruct c; cbn in *; congruence) no_fault (reset_calls w)) as Hd.
+  pose proof (frame_ln fp_balance total_balance only_balance ltac:(intros c Hc; destruct c; cbn in *; congruence) no_fault (reset_calls w)) as Hl.
+  pose proof (frame_ks fp_balance total_balance only_balance ltac:(intros c Hc; destruct c; cbn in *; congruence) no_fault (reset_calls w)) as [_ [Hm Ha]].
+  unfold same_lnw in Hl.
+  destruct (run total_balance no_fault (reset_calls w)) as [w' [[x|e]| |]]; cbn [fst run] in *; repeat split; assumption.
+Qed.
+
+Lemma same_state_refl w : same_state w w. Proof. repeat split. Qed.
+Lemma same_state_sym a b : same_state a b -> same_state b a.
+Proof. intros [H1 [H2 [H3 H4]]]. repeat split; symmetry; assumption. Qed.
+Lemma same_state_trans a b c : same_state a b -> same_state b c -> same_state a c.
+Proof. intros [H1 [H2 [H3 H4]]] [G1 [G2 [G3 G4]]]. repeat split; congruence. Qed.
+
+(* an operation sees the store, the Lightning state and the keyset memory, nothing else *)
+Lemma step_same_state cfg a b o :
+  same_state a b -> same_state (fst (step cfg no_fault a o)) (fst (step cfg no_fault b o)).
+Proof.
+  intros [H1 [H2 [H3 H4]]]. unfold step. destruct (is_env o) eqn:Ee; cbn [fst].
+  - destruct a as [d l m ac n], b as [d2 l2 m2 ac2 n2]. cbn [w_db w_ln w_mem w_active] in *. subst.
+    destruct o; try discriminate Ee; repeat split.
+  - assert (Hp : prepare o a = prepare o b).
+    { destruct a as [d l m ac n], b as [d2 l2 m2 ac2 n2]. cbn [w_db w_ln w_mem w_active] in *. subst. destruct o; reflexivity. }
+    rewrite Hp. apply same_state_refl.
+Qed.
+
+(* a history with admin requests reaches the state of the plain mint history it amounts to *)
+Theorem arun_as_history cfg h : forall a b,
+  same_state a b -> same_state (arun cfg a h) (fst (run_history cfg b (map as_op h))).
+Proof.
+  induction h as [|it r IH]; intros a b Hab; cbn [arun fold_left map]; [exact Hab|].
+  rewrite run_history_fst. apply IH.
+  destruct it as [o|rq]; cbn [astep as_op].
+  - apply step_same_state. exact Hab.
+  - destruct (is_rotation rq) as [fee|] eqn:Er.
+    + destruct (admin_rotate_is_rotate cfg a rq fee Er) as [-> _]. apply step_same_state. exact Hab.
+    + pose proof (admin_readonly a rq Er) as Hro. cbv zeta in Hro.
+      eapply same_state_trans; [exact Hro|]. eapply same_state_trans; [exact Hab|].
+      apply same_state_sym. apply balance_readonly.
 Qed.
